@@ -24,7 +24,7 @@ m = dict(version=1, setup_cmd="bin/setup",
   hooks=dict(guard="--cfg flac_codec_verif", enable="rustflags in /verif/harness/.cargo/config.toml: --cfg flac_codec_verif (path dependency on /repo; every check rebuilds it from the working tree)",
      baseline_off_cmd="cd /repo && cargo test --workspace --no-fail-fast --offline", source_commits=hooks, add_only=True),
   engines=[dict(name="tlc", path="/opt/veriftools/tla/tla2tools.jar", serves_properties=sorted(CLAIMS), kind_free_text="TLC 1.8.0 explicit-state model checker: exhaustive model checks, behaviour generation, trace validation"),
-           dict(name="tlapm", path="/usr/local/bin/tlapm", serves_properties=["C06", "C07"], kind_free_text="TLA+ proof system: ReaderAbsProofs.tla, the abstract reader's safety for every stream length (a statement about the specification; the verdicts on the code come from TLC)")],
+           dict(name="tlapm", path="/usr/local/bin/tlapm", serves_properties=["C06", "C07", "C13"], kind_free_text="TLA+ proof system: ReaderAbsProofs.tla (the abstract reader's safety for every stream length) and IoFaultsProofs.tla (the flushed buffered-writer routine reports success only when every byte was delivered, for every total / capacity / chunking / failing call); statements about the specifications - the verdicts on the code come from TLC")],
   checks=checks, not_applicable=na,
   notes="All verdicts come from TLA+ specifications evaluated by TLC (see DESIGN.md). bin/check exits 0/1/2 = held / VIOLATION / tooling error. known_findings.json lists repaired defects (fixed:) and open findings.")
 json.dump(m, open(os.path.join(ROOT, "MANIFEST.json"), "w"), indent=1)
